@@ -18,7 +18,7 @@ VARIABLES blk, tid, verdict
 
 InVb(vb, p) == 8 * vb[1] <= p[1] /\ p[1] <= 8 * (vb[1] + vb[3]) /\ 8 * vb[2] <= p[2] /\ p[2] <= 8 * (vb[2] + vb[4])
 
-Samples(box) == { <<4 * i + 2, 4 * j + 2>> : i \in (2 * box[1])..(2 * box[3] - 1), j \in (2 * box[2])..(2 * box[4] - 1) }
+Samples(box) == { <<4 * i + 1, 4 * j + 2>> : i \in (2 * box[1])..(2 * box[3] - 1), j \in (2 * box[2])..(2 * box[4] - 1) }
 
 JudgeClip(c) ==
   IF c.b.k # "ok" THEN "ok:exception"
@@ -26,7 +26,7 @@ JudgeClip(c) ==
            B(p) == OutStack(c.b.layers, p)
            Robust(p) == \A q \in Nbrs(p) : OutStack(c.a, q) = OutStack(c.a, p) /\ InVb(c.vb, q) = InVb(c.vb, p)
            bad == { p \in Samples(c.box) : B(p) # A(p) /\ Robust(p) }
-           gv == PG!Violations(c.b.outp, 3, FALSE)
+           gv == PG!Violations(c.b.outp, 30, FALSE)   \* no digits are requested from clip_to_viewbox
        IN IF bad # {} THEN LET p == CHOOSE p \in bad : TRUE
                            IN "BAD:clip-render@" \o ToString(p[1]) \o "," \o ToString(p[2])
           ELSE IF gv # {} THEN "BAD:clipped-not-pico:" \o (CHOOSE v \in gv : TRUE)
